@@ -580,3 +580,90 @@ def explicit_falsy(ctx):
     """A parameter of the service layer that gets its default through a truthiness test is never passed an explicit falsy constant by a caller inside the package (min_providers, limits, after_txid)."""
     from .common_falsy import falsy_defaults as run
     run(ctx, ['services.services', 'services.baseclient'], 'a limit / provider count of 0 given on purpose is replaced by the default')
+
+
+@PROP.obligation('C20.unknown-spent', canaries=[
+    mut.replace_expr(SVC, 'Cache.getutxos', 'db_utxo.spent is False', 'not db_utxo.spent', 'cached outputs of unknown status served as unspent'),
+    mut.replace_expr(SVC, 'Cache.getutxos', 'db_utxo.spent is None', 'db_utxo.spent is True', 'cache scan continues past an output of unknown status'),
+])
+def unknown_spent(ctx):
+    """Cache.getutxos reads the three-valued column `spent` (False = unspent, True = spent, NULL = unknown: stored for transactions fetched
+    through gettransaction(s) or from providers without spent information). The loop body is evaluated for each value: only False adds the
+    output to the answer, True adds nothing, and NULL ends the answer from the cache there (the providers are asked for the rest)."""
+    q = SVC + ':Cache.getutxos'
+    fn = ctx.repo.func(q)
+    loops = [n for n in walk_no_nested(fn) if isinstance(n, ast.For) and norm(n.iter) == 'db_utxos']
+    if len(loops) != 1:
+        ctx.undecided('Cache.getutxos: loop over the cached outputs not found')
+    var = loops[0].target.id if isinstance(loops[0].target, ast.Name) else None
+    if var is None:
+        ctx.undecided('Cache.getutxos: loop variable not a name')
+    U = ('var', var)
+    res = {}
+    for val in (False, True, None):
+        it = Interp(ctx.repo, SVC, self_cls=SVC + ':Cache')
+        st = State(env={'self': S(('var', 'self')), var: S(U), 'utxos': [], 'address': S(('var', 'address'), 'str'), 'after_txid': S(('var', 'after_txid'), 'bytes')})
+        st.heap[('attr', U, 'spent')] = val
+        it.frames.append([])
+        try:
+            body = [x for x in loops[0].body if isinstance(x, ast.If) and 'spent' in norm(x.test)]
+            if not body:
+                ctx.undecided('Cache.getutxos: no statement of the loop tests the spent column')
+            end = it.exec_block(body, st)
+        except AnalysisError as e:
+            ctx.undecided('Cache.getutxos: loop body not evaluable for spent=%r: %s' % (val, str(e)[:80]))
+        returned = [e for e in it.frames[-1] if e.kind == 'return']
+        if end is None and returned:
+            res[val] = 'returns'
+        elif end is not None:
+            lst = end.env.get('utxos')
+            sizes = set()
+            for t in subterms(('w', term(lst))):
+                pass
+            res[val] = 'adds' if (isinstance(lst, list) and len(lst) == 1) else ('skips' if (isinstance(lst, list) and len(lst) == 0) else 'mixed: %s' % show(term(lst))[:60])
+        else:
+            res[val] = 'raises'
+    ctx.saw('spent False / True / NULL -> %s' % [res[v] for v in (False, True, None)])
+    ctx.require(res[False] == 'adds', q, 'an output cached as unspent is not added to the answer (%s)' % res[False], loops[0])
+    ctx.require(res[True] == 'skips', q, 'an output cached as SPENT is treated as: %s' % res[True], loops[0], 'spent outputs are reported as unspent')
+    ctx.require(res[None] == 'returns', q, 'an output cached with UNKNOWN spent status is treated as: %s (expected: the cached answer ends there)' % res[None], loops[0],
+                'outputs already spent on chain are served as unspent from the cache, and an older real UTXO can be cut off')
+
+
+@PROP.obligation('C20.history-cache-guard', canaries=[
+    mut.replace_expr(SVC, 'Service.gettransactions', 'self.min_providers <= 1 and (not (after_txid and (not db_addr))) and caching_enabled', 'caching_enabled', 'tail of a history cached as the complete history'),
+    mut.replace_expr(SVC, 'Service.gettransactions', 'self.min_providers <= 1 and (not (after_txid and (not db_addr))) and caching_enabled', 'self.min_providers <= 1 and (not (after_txid and db_addr)) and caching_enabled', 'continuation guard inverted'),
+])
+def history_cache_guard(ctx):
+    """Service.gettransactions marks an address as cached up to the current block (last_block = self.blockcount(), store_address with
+    txs_complete) only when what it fetched is the history from its start or the continuation of a history the cache already holds. The
+    guard of that block is evaluated: false for a continuation query (after_txid given) on an address the cache does not know, false when
+    providers are being compared (min_providers > 1); true for a plain query and for a continuation of a cached address."""
+    q = SVC + ':Service.gettransactions'
+    fn = ctx.repo.func(q)
+    blocks = [n for n in walk_no_nested(fn) if isinstance(n, ast.If) and any(isinstance(x, ast.Assign) and norm(x.targets[0]) == 'last_block' and 'blockcount' in norm(x.value) for x in n.body)]
+    if len(blocks) != 1:
+        ctx.undecided('gettransactions: the block that marks the address as up to date was not found')
+    I = ('var', 'self')
+    res = {}
+    for label, after, db_addr, minp, want in (('plain query', '', None, 1, True), ('plain query, cached address', '', S(('var', 'db_addr')), 1, True),
+                                              ('continuation of a cached address', 'ab' * 32, S(('var', 'db_addr')), 1, True),
+                                              ('continuation on an address the cache does not know', 'ab' * 32, None, 1, False),
+                                              ('comparing providers', '', None, 2, False)):
+        it = Interp(ctx.repo, SVC, self_cls=SVC + ':Service', decide=lambda t: True if t == ('var', 'db_addr') else None)
+        st = State(env={'self': S(I), 'after_txid': after, 'db_addr': db_addr, 'caching_enabled': minp <= 1})
+        st.heap[('attr', I, 'min_providers')] = minp
+        try:
+            v = it.truth(it.eval(blocks[0].test, st), st)
+        except AnalysisError as e:
+            ctx.undecided('gettransactions: cache guard not evaluable: %s' % str(e)[:80])
+        if not isinstance(v, bool):
+            try:
+                v = bool(intv.truth_eval(v, {('var', 'db_addr'): True}))
+            except (intv.Unknown, KeyError, TypeError):
+                ctx.undecided('gettransactions: cache guard `%s` not decidable for %s' % (norm(blocks[0].test)[:80], label))
+        res[label] = v
+        ctx.require(v is want, q, '%s: the address is %smarked as cached up to the current block (guard `%s`)' % (label, '' if v else 'not ', norm(blocks[0].test)[:90]), blocks[0],
+                    'after gettransactions(address, after_txid=t) on a cold cache the tail is stored as the whole history: later queries are answered from the cache with the tail, no provider is asked, balance and n_txs are those of the tail'
+                    if not want else 'histories are never cached')
+    ctx.saw('history cache guard: %s' % res)
